@@ -344,6 +344,9 @@ func main() {
 		}
 	}
 	for _, n := range e.notes {
+		if strings.HasPrefix(n, "stale-invariant") {
+			lines = append(lines, "NOTE "+n)
+		}
 		if strings.HasPrefix(n, "stale-contract") {
 			lines = append(lines, n)
 			if exit == 0 {
